@@ -383,7 +383,7 @@ func exprString(e ast.Expr) string {
 }
 
 func shapeFacts(fd *ast.FuncDecl) map[string]interface{} {
-	var conds, calls, sels, cmps, rets, assigns []string
+	var conds, calls, sels, cmps, rets, assigns, chans, gos []string
 	depth := 0
 	var stack []ast.Node
 	ast.Inspect(fd.Body, func(n ast.Node) bool {
@@ -396,6 +396,13 @@ func shapeFacts(fd *ast.FuncDecl) map[string]interface{} {
 		}
 		stack = append(stack, n)
 		switch x := n.(type) {
+		case *ast.GoStmt:
+			// which goroutines are started (transition systems are written from these)
+			gos = append(gos, "go "+strings.Join(strings.Fields(exprString(x.Call.Fun)), " ")[:min(40, len(strings.Join(strings.Fields(exprString(x.Call.Fun)), " ")))])
+		case *ast.DeferStmt:
+			gos = append(gos, "defer "+strings.Join(strings.Fields(exprString(x.Call.Fun)), " ")[:min(40, len(strings.Join(strings.Fields(exprString(x.Call.Fun)), " ")))])
+		case *ast.SendStmt:
+			gos = append(gos, "send "+exprString(x.Chan))
 		case *ast.BlockStmt:
 			depth++
 		case *ast.AssignStmt:
@@ -437,6 +444,12 @@ func shapeFacts(fd *ast.FuncDecl) map[string]interface{} {
 				sels = append(sels, strings.Join(strings.Fields(buf.String()), " "))
 			}
 		case *ast.CallExpr:
+			if id, ok := x.Fun.(*ast.Ident); ok && id.Name == "make" && len(x.Args) >= 1 {
+				if _, isChan := x.Args[0].(*ast.ChanType); isChan {
+					// channel capacities are parameters of the transition systems
+					chans = append(chans, exprString(x))
+				}
+			}
 			name := ""
 			switch f := x.Fun.(type) {
 			case *ast.Ident:
@@ -450,7 +463,7 @@ func shapeFacts(fd *ast.FuncDecl) map[string]interface{} {
 		}
 		return true
 	})
-	return map[string]interface{}{"conds": conds, "calls": calls, "select": sels, "cmps": cmps, "returns": rets, "assigns": assigns}
+	return map[string]interface{}{"conds": conds, "calls": calls, "select": sels, "cmps": cmps, "returns": rets, "assigns": assigns, "chans": chans, "conc": gos}
 }
 
 // ---------- proto numbers
